@@ -136,7 +136,19 @@ fn check_suffixes(x: &[u8], sfx: &[Vec<u8>], rep: &mut Report) -> u64 {
     for d in 0..DECODERS.len() {
         let base = match guarded(|| dec(d, x)) {
             Ok(Some((used, val))) if used == x.len() => val,
-            Ok(Some(_)) => continue,
+            Ok(Some((used, val))) => {
+                // x is exactly one TLV (its header announces all of x) and the decoder accepts it: it must have read all of it.
+                // BerHeader (d == 7) reads a header only.
+                if d != 7 {
+                    n += 1;
+                    rep.violation(
+                        &format!("extent/{}/tag-{:02x}/len-{}: consumed fewer octets than the element declares", DECODERS[d].0, x[0], x.len() - 2),
+                        format!("{}: element {} decodes (value {}) but only {} of its {} octets were consumed - the rest of its declared contents is handed on as remaining input", DECODERS[d].0, hex(&x[..x.len().min(24)]), val, used, x.len()),
+                        format!("{{\"kind\": \"suffix\", \"decoder\": {}, \"x\": {}, \"s\": \"\"}}", d, jstr(&hex(x))),
+                    );
+                }
+                continue;
+            }
             Ok(None) => {
                 // x is a complete TLV that this decoder refuses: what follows it must not make it acceptable
                 // (only judged for the decoder whose tag matches, and for SnmpValue)
